@@ -217,7 +217,9 @@ impl<T: Ord> CDF<T> {
         if self.inner.len() <= n {
             self
         } else {
-            let s = self.inner.len() / (n - 1);
+            // stride over the entries before the last one that keeps at most n - 1 of them:
+            // ceil((len - 1) / (n - 1))
+            let s = (self.inner.len() + n - 3) / (n - 1);
             let last = self.inner.pop().unwrap();
             let mut inner = self.inner.into_iter().step_by(s).collect_vec();
             inner.push(last);
